@@ -412,6 +412,22 @@ func parseHyphenRange(rangeStr string) ([]*constraint, error) {
 		return nil, fmt.Errorf("invalid end version in hyphen range: %s", end)
 	}
 
+	// A partial upper bound stands for a wildcard: 1.0 - 2.0 means >=1.0.0 <2.1.0 and 1.0 - 2 means >=1.0.0 <3.0.0
+	if segments := len(strings.Split(end, ".")); segments < 3 && !strings.ContainsAny(end, "-+@") {
+		upperVersionStr := fmt.Sprintf("%d.0.0", endVersion.major+1)
+		if segments == 2 {
+			upperVersionStr = fmt.Sprintf("%d.%d.0", endVersion.major, endVersion.minor+1)
+		}
+		upperVersion, err := e.NewVersion(upperVersionStr)
+		if err != nil {
+			return nil, err
+		}
+		return []*constraint{
+			{operator: ">=", version: startVersion},
+			{operator: "<", version: upperVersion},
+		}, nil
+	}
+
 	return []*constraint{
 		{operator: ">=", version: startVersion},
 		{operator: "<=", version: endVersion},
